@@ -623,6 +623,8 @@ def wrapper_sizes(repo, rep, kernels_lead):
 
 
 def run(repo, rep, tier):
+    from .round7b import hygiene
+    hygiene(repo, rep, "C03", ('wavespectra.partition.',), falsy=True)
     rep.rule("R-C03-10", "(shared with C16) the smoothed spectrum handed to the watershed has no NaN rows: smooth_spec fills the window's edge NaN from the input "
                          "on every path (a NaN bin is owned by no partition: energy is lost)")
     from .round7 import unconditional_boundary_fill
